@@ -43,11 +43,13 @@ def do_import():
         if not ent.endswith('.out'):
             continue
         pid = ent[:-4]
-        for m in ('m1', 'm2'):
+        for m in ('m1', 'm2', 'm3', 'm4'):
             src = os.path.join('/tmp/mut', ent)
             if not os.path.exists(os.path.join(src, m + '.diff')):
                 continue
             dst = os.path.join(SEEDED, '%s-%s' % (pid, m))
+            if os.path.exists(os.path.join(dst, 'meta.json')) and 'confirmation' in json.load(open(os.path.join(dst, 'meta.json'))):
+                continue
             os.makedirs(dst, exist_ok=True)
             shutil.copy(os.path.join(src, m + '.diff'), os.path.join(dst, 'patch.diff'))
             shutil.copy(os.path.join(src, m + '_demo.py'), os.path.join(dst, 'demo.py'))
